@@ -10,6 +10,8 @@ use vstd::prelude::*;
 //@include ../../shims/crypto.rs
 //@include ../../shims/net.rs
 //@include ../../shims/ss.rs
+//@include ../../shims/strs.rs
+//@include ../../shims/b64.rs
 }
 use shim::*;
 pub mod specs {
@@ -39,5 +41,6 @@ broadcast use axiom_seal_len, axiom_open_unique, lemma_len0_empty, axiom_v4_len,
 //@include ../parts/pwin.rs
 //@include ../parts/ssudp.rs
 //@include ../parts/sspayload.rs
+//@include ../parts/keys.rs
 } // verus!
 fn main() {}
